@@ -292,3 +292,51 @@ func PlantCaptive(t *rapid.T, cfg *Config) bool {
 	addDep(&cfg.Regs[p.a], d)
 	return true
 }
+
+// PlantSameCtor registers the constructor of a scoped service that depends on
+// another scoped service a second time, under another name and as a singleton
+// or transient: a captive dependency that differs from an accepted
+// registration in nothing but the lifetime. The clone is appended (registered
+// after the original). Returns false when the configuration offers no
+// opportunity.
+func PlantSameCtor(t *rapid.T, cfg *Config) bool {
+	m, err := NewModel(cfg)
+	if err != nil {
+		return false
+	}
+	var cands []int
+	for i := range cfg.Regs {
+		r := &cfg.Regs[i]
+		if r.Life != Scoped || r.Form != FormPlain || len(r.As) > 0 || r.Kind != KindMakeFunc || len(r.Dropped) > 0 || IsIface(r.Outs[0].T) && r.Outs[0].HasAlt {
+			continue
+		}
+		for _, v := range m.RegEdges(r) {
+			if m.Regs[v].Life == Scoped {
+				cands = append(cands, i)
+				break
+			}
+		}
+	}
+	if len(cands) == 0 {
+		return false
+	}
+	src := cfg.Regs[rapid.SampledFrom(cands).Draw(t, "sameCtorOf")]
+	nid := 0
+	for _, r := range cfg.Regs {
+		if r.ID >= nid {
+			nid = r.ID + 1
+		}
+	}
+	clone := src
+	clone.ID = nid
+	clone.Outs = append([]OutSpec(nil), src.Outs...)
+	clone.Deps = append([]DepSpec(nil), src.Deps...)
+	clone.Life = rapid.SampledFrom([]int{Singleton, Transient}).Draw(t, "sameCtorLife")
+	clone.Name, clone.Group = "again", ""
+	if rapid.Bool().Draw(t, "sameCtorGroup") {
+		clone.Name, clone.Group = "", "again"
+	}
+	clone.HasCtorOf, clone.CtorOf = true, src.ID
+	cfg.Regs = append(cfg.Regs, clone)
+	return true
+}
